@@ -14,8 +14,8 @@ git apply "$dst/patch.diff" || { echo "APPLY-FAIL" | tee -a "$log"; exit 2; }
 out=$(cargo test --workspace --no-fail-fast --offline 2>&1); 
 if echo "$out" | grep -qE "^error|test result: FAILED|error: test failed"; then echo "suite_with_change=FAIL" | tee -a "$log"; echo "$out" | grep -E "FAILED|^error" | head -5 | tee -a "$log"; else echo "suite_with_change=pass ($(echo "$out" | grep -E '^test result: ok' | awk '{s+=$4} END{print s}') tests incl. doctests)" | tee -a "$log"; fi
 cp "$dst/demo.rs" tests/$tname.rs
-out=$(cargo test --offline --test $tname -- $extra 2>&1); if echo "$out" | grep -qE "test result: FAILED|error: test failed"; then echo "demo_with_change=fails (expected)" | tee -a "$log"; else echo "demo_with_change=PASSES (unexpected)" | tee -a "$log"; fi
+out=$(cargo test ${CARGO_EXTRA:-} --offline --test $tname -- $extra 2>&1); if echo "$out" | grep -qE "test result: FAILED|error: test failed"; then echo "demo_with_change=fails (expected)" | tee -a "$log"; else echo "demo_with_change=PASSES (unexpected)" | tee -a "$log"; fi
 echo "$out" | grep -E "^test |panicked" | head -8 >> "$log"
 git apply -R "$dst/patch.diff"
-out=$(cargo test --offline --test $tname -- $extra 2>&1); if echo "$out" | grep -qE "test result: ok" && ! echo "$out" | grep -qE "test result: FAILED"; then echo "demo_without_change=passes (expected)" | tee -a "$log"; else echo "demo_without_change=FAILS (unexpected)" | tee -a "$log"; fi
+out=$(cargo test ${CARGO_EXTRA:-} --offline --test $tname -- $extra 2>&1); if echo "$out" | grep -qE "test result: ok" && ! echo "$out" | grep -qE "test result: FAILED"; then echo "demo_without_change=passes (expected)" | tee -a "$log"; else echo "demo_without_change=FAILS (unexpected)" | tee -a "$log"; fi
 rm -f tests/$tname.rs; git checkout -q -- . ; git status --short | head -3
